@@ -55,6 +55,9 @@ for id in sorted(os.listdir('/verif/seeded')):
         r5 = json.load(open('/verif/records/round5_breaking_first_pass.json'))['first_pass']
         for k5, v5 in r5.items():
             fp[k5] = dict(v5, round=5)
+        r6 = json.load(open('/verif/records/round6_breaking_first_pass.json'))['first_pass']
+        for k6, v6 in r6.items():
+            fp[k6] = dict(v6, round=6)
     except Exception:
         fp = {}
     if id in fp:
